@@ -416,10 +416,16 @@ func (f *file) ReadDir(n int) ([]hackpadfs.DirEntry, error) {
 		return nil, &hackpadfs.PathError{Op: "readdir", Path: f.path, Err: err}
 	}
 	start, end := f.offset, f.offset+int64(n)
-	if n <= 0 {
-		start, end = 0, int64(len(dirNames))
-	} else if end > int64(len(dirNames)) {
+	if start > int64(len(dirNames)) {
+		start = int64(len(dirNames))
+	}
+	if n <= 0 || end > int64(len(dirNames)) {
+		// a non-positive count returns all remaining entries
 		end = int64(len(dirNames))
+	}
+	if n > 0 && start == end {
+		// like os.File, the end of the directory is reported as io.EOF
+		return nil, io.EOF
 	}
 	offsetAdd := end - start
 
